@@ -29,6 +29,25 @@ pub struct Outcome {
     pub detail: serde_json::Value,
 }
 
+thread_local! {
+    static ON_ORDINARY_STACK: std::cell::Cell<bool> = const { std::cell::Cell::new(false) };
+}
+
+fn long_interrupted_run(bc: &BuildCase) -> bool {
+    let mut run = 0usize;
+    for w in &bc.plan.writes {
+        if matches!(w, WStep::Intr) {
+            run += 1;
+            if run >= 50_000 {
+                return true;
+            }
+        } else {
+            run = 0;
+        }
+    }
+    false
+}
+
 pub fn harness_error(msg: String) -> ! {
     eprintln!("HARNESS ERROR: {}", msg);
     std::process::exit(2);
@@ -122,6 +141,33 @@ fn sink_tags(run: &crate::build::BuildRun, case: &BuildCase) -> Vec<(&'static st
 
 pub fn exec(prop: &str, case: &Case) -> Outcome {
     match (prop, case) {
+        // "Interrupted any number of times": a very long uninterrupted run
+        // of Interrupted is executed on a thread with an ordinary 2 MiB stack
+        // (the batch workers have 64 MiB), so that a retry that costs stack
+        // per Interrupted shows as what it is
+        ("C07", Case::Build(bc)) if long_interrupted_run(bc) && !ON_ORDINARY_STACK.with(|c| c.get()) => {
+            let case2 = case.clone();
+            let h = std::thread::Builder::new()
+                .stack_size(2 << 20)
+                .spawn(move || {
+                    ON_ORDINARY_STACK.with(|c| c.set(true));
+                    crate::front::install_quiet_panic_hook();
+                    exec("C07", &case2)
+                })
+                .expect("harness: spawn");
+            match h.join() {
+                Ok(o) => o,
+                Err(p) => Outcome {
+                    digest: 0,
+                    nontrivial: true,
+                    violation: Some(Violation { oracle: "C07.panic".into(), observed: crate::front::panic_msg(p) }),
+                    explicit: case.clone(),
+                    tags: vec![],
+                    steps: 0,
+                    detail: serde_json::Value::Null,
+                },
+            }
+        }
         ("C07", Case::Build(bc)) | ("C01", Case::Build(bc)) | ("C06", Case::Build(bc)) => {
             let run = run_build(bc);
             let violation = match prop {
